@@ -231,12 +231,30 @@ def kv(line):
     return d
 
 
+SESSTAB = {}      # exe -> address of the static server session table (hex), see session_table_address()
+
+def session_table_address(exe):
+    """matrixssl.c keeps the server's session cache in a static array; the harness (linked non-PIE) reads the entry of the
+    session that just ended through its address from the symbol table"""
+    try:
+        out = subprocess.run(["nm", exe], stdout=subprocess.PIPE, text=True).stdout
+        for l in out.split("\n"):
+            t = l.split()
+            if len(t) == 3 and t[2] == "g_sessionTable":
+                SESSTAB[exe] = t[0]
+    except OSError:
+        pass
+    return SESSTAB.get(exe)
+
+
 def run_scenario(exe, scen, outdir, nshards, perchild, maxocc, multi, seed, timeout=3000, lsan=False):
     """starts all shards of one scenario; returns the process list for collect().
     lsan: every child additionally asks LeakSanitizer (__lsan_do_recoverable_leak_check) after teardown - about twice as slow;
     the harness's own live-block table (every library block must be freed) is the stricter check and always on."""
     env = dict(os.environ, ASAN_OPTIONS="detect_leaks=%d:exitcode=66:allocator_may_return_null=1:handle_abort=1" % (1 if lsan else 0),
                UBSAN_OPTIONS="print_stacktrace=1")
+    if SESSTAB.get(exe):
+        env["H_FAULT_SESSTAB"] = SESSTAB[exe]
     if lsan:
         env["H_FAULT_LSAN"] = "1"
     else:
@@ -312,6 +330,54 @@ def owner_of(sym, stack):
     return last or ("??", "??", 0)
 
 
+
+def parse_fp(txt):
+    """'cp{a=1,b=2,};cp2{..};' -> {cp: {a: '1', ...}}"""
+    out = {}
+    if not txt or txt == "-":
+        return out
+    for m in re.finditer(r"([^;{}]+)\{([^}]*)\}", txt):
+        d = {}
+        for kvp in m.group(2).split(","):
+            if "=" in kvp:
+                a, b = kvp.split("=", 1); d[a] = b
+        out[m.group(1)] = d
+    return out
+
+
+def fp_lost(base, child):
+    """fields of objects the child still HAS whose content is missing / different from the fault-free run.
+    An object that is absent altogether (no PSK, no ticket, no cache entry: the library dropped it and will do a full
+    handshake) is not a loss of content; an object that exists with a part missing is."""
+    lost = []
+    for cp, c in child.items():
+        b = base.get(cp)
+        if b is None:
+            continue
+        if cp.startswith("keys."):
+            fields = [f for f in b if b[f] != c.get(f)]
+        elif cp.startswith("sid@"):
+            fields = []
+            if c.get("npsk", "0") != "0" and b.get("npsk", "0") != "0":
+                fields += [f for f in ("pskLen", "pskIdLen", "res", "params", "sni", "alpn", "ver", "pcipher", "med", "life") if b.get(f) != c.get(f)]
+            if c.get("idLen", "0") != "0" and b.get("idLen", "0") != "0":
+                fields += [f for f in ("cid", "ms") if b.get(f) != c.get(f)]
+            if c.get("tick", "0") != "0" and b.get("tick", "0") != "0":
+                fields += [f for f in ("cid", "ms", "hint", "tickptr") if b.get(f) != c.get(f) and f not in fields]
+            if c.get("tick", "0") == "0" and c.get("tickptr") == "1":
+                fields.append("tickptr-dangling")          # length says "no ticket" but the pointer is still set
+        elif cp.startswith("cache@"):
+            fields = [f for f in ("ms", "cipher", "ver", "ems") if b.get(f) != c.get(f)]
+        else:
+            fields = []
+        for f in fields:
+            if f == "tickptr-dangling":
+                lost.append("%s.%s(sessionTicketLen=0 but sessionTicket still points to a block)" % (cp, f))
+            else:
+                lost.append("%s.%s(%s->%s)" % (cp, f, b.get(f), c.get(f)))
+    return lost
+
+
 def analyse(ck, exe, scen, data, sidx, sym, multi, report, seed_used=1):
     """report: callable(sig, what, replay).  Returns per-site observations {key: {"reached":n,"crashed":n}}"""
     A, F, V, R, Bs = data["A"], data["F"], data["V"], data["R"], data["B"]
@@ -335,6 +401,8 @@ def analyse(ck, exe, scen, data, sidx, sym, multi, report, seed_used=1):
             ck.notes.append(note)
     # fault-free run must itself be nominal
     neg = int(b.get("neg", "0"))
+    base_fp = parse_fp(b.get("fp", "-"))
+    base_x = b.get("xname", "-")
     if scen.split("+")[0] in POSITIVE:
         pat = POSITIVE[scen.split("+")[0]]
         nominal = (b["ok"] == "1" and b["leaks"] == "0" and b["undoc"] == "-" and b.get("cfglost", "-") == "-" and
@@ -459,6 +527,26 @@ def analyse(ck, exe, scen, data, sidx, sym, multi, report, seed_used=1):
                        (scen, NEG_WHAT.get(scen, scen), " and ".join(who), rel_of(fr[1]), fr[2], fr[0], f.get("phase"), k, f.get("api"), v.get("fault_rc")),
                        dict(replay, observed="cdone=%s sdone=%s app_c=%s app_s=%s" % (v.get("cdone"), v.get("sdone"), v.get("app_c"), v.get("app_s")),
                             expected_by_spec="no side reports HANDSHAKE_COMPLETE: " + NEG_WHAT.get(scen, "")))
+        # ---- negative twin across connections: a session for a DIFFERENT server name on the same session id must not
+        #      complete unless it also does in the fault-free run (TLS <= 1.2 / external PSK: resumption is not bound to a name)
+        vx = v.get("xname", "-")
+        if ("C" in vx or "c" in vx) and not ("C" in base_x or "c" in base_x):
+            stats["verification_skipped"] = stats.get("verification_skipped", 0) + 1
+            report("verification-skipped:%s:xname:%s" % (scen, key),
+                   "handshake reported complete with a verification step skipped, two sessions apart: after %s:%d (%s) returned NULL in scenario %s [%s, allocation #%d, call in progress %s -> rc %s] "
+                   "a NEW client session for a different server name (other.example.com) on the same application-owned session id was accepted and completed%s; the fault-free run refuses it (probe results %s vs %s)" %
+                   (rel_of(fr[1]), fr[2], fr[0], scen, f.get("phase"), k, f.get("api"), v.get("fault_rc"), " as a resumption - no certificate was checked" if "C" in vx else "", vx, base_x),
+                   dict(replay, observed="different-name probe: %s (C = completed resumed, c = completed, R = refused by matrixSslNewClientSession, F = handshake failed)" % vx,
+                        expected_by_spec="refused or failed, as in the fault-free run (%s)" % base_x))
+        # ---- swallowed failure: content of the objects the calls produced / updated, against the fault-free run
+        lost = fp_lost(base_fp, parse_fp(v.get("fp", "-")))
+        if lost:
+            stats["config_lost"] = stats.get("config_lost", 0) + 1
+            obj, fld = lost[0].split("(")[0].rsplit(".", 1)
+            report("config-lost:%s:%s.%s" % (f.get("api"), obj.split("@")[0], fld),
+                   "allocation failure swallowed: %s:%d (%s) returned NULL during %s in scenario %s [%s, allocation #%d], the call reported %s and the run went on, but the object it produced/updated "
+                   "differs from the fault-free run in security-relevant content: %s" % (rel_of(fr[1]), fr[2], fr[0], f.get("api"), scen, f.get("phase"), k, v.get("fault_rc"), ", ".join(lost[:6])),
+                   dict(replay, observed="; ".join(lost[:10]), expected_by_spec="an error / alert, or the object is complete, or it is dropped as a whole"))
         # ---- an API call reported success but the security-relevant configuration it was asked to install is missing
         if v.get("cfglost", "-") != "-":
             stats["config_lost"] = stats.get("config_lost", 0) + 1
@@ -513,6 +601,17 @@ def run(ck):
     ck.log("allocation sites: %d  %s" % (len(sites), " ".join("%s=%d" % x for x in sorted(hist.items()))))
     # statically visible sites that use the result without a test are findings whether or not the configuration builds them: each
     # is reported by its own signature (an entry of known_findings.json may list it as open: then it prints as KNOWN-FINDING)
+    # GuardedButSwallowed sites are violations unless coq/Res/ResModel.v lists them as reviewed-benign (the table theorem uses
+    # the same list; it is read here only to give each unreviewed site its own finding)
+    mm = re.search(r"Definition benign_swallowed_keys.*?:=\s*\[(.*?)\]\.", re.sub(r"\(\*.*?\*\)", "", open(os.path.join(vlib.COQ, "Res/ResModel.v")).read(), flags=re.S), re.S)
+    benign = set(re.findall(r'"([^"]+)"', mm.group(1))) if mm else set()
+    ck.cov["guarded_but_swallowed"] = [{"site": s["key"], "line": s.get("line"), "benign": s["key"] in benign, "why": s.get("why")} for s in sites if s["cls"] == "GuardedButSwallowed"]
+    for s in sites:
+        if s["cls"] == "GuardedButSwallowed" and s["key"] not in benign:
+            ck.spec_violation("swallowed:%s:%s" % (s["file"], s["key"].split(":", 1)[-1]),
+                              "allocation failure is swallowed at %s:%s in %s (%s): the NULL test exists, but the failing branch neither leaves the function nor records an error - the function carries on with a partially built object (%s) and its caller is told nothing; not on the reviewed benign list of coq/Res/ResModel.v" %
+                              (s["file"], s.get("line", "?"), s.get("func", "?"), s.get("why"), s.get("lhs")),
+                              {"site": s["key"], "class": s["cls"], "found_by": "translator table (static)", "why": s.get("why")})
     for s in sites:
         if s["cls"] in ("UsedUnguarded", "StoredUnchecked", "Unknown"):
             ck.spec_violation("crash:%s:%s" % (s["file"], s["key"].split(":", 1)[-1]),
@@ -525,6 +624,7 @@ def run(ck):
     R = build_fault_variant(ck)
     exe = ck.cc("h_fault.c", variant="fault", wraps=WRAPS, extra=SAN)
     index_repo_files(R)
+    session_table_address(exe)
     sidx = SiteIndex(sites)
     sym = Sym(exe)
     outdir = os.path.join(ck.scratch, "fault")
@@ -604,6 +704,8 @@ def run(ck):
         "unwinding correctness after a failed allocation (no leak, no double free, no stale pointer in application-owned objects) outside the table lemma: explored by fault injection over the scenarios (thorough: every allocation of every scenario; quick: the first %d executions of every (call stack, API call, phase) combination), not proved" % QUICK_OCC,
         "error propagation in the CALLERS of a guarded site (the error edge reaches the API boundary as an error code / alert): explored, not proved",
         "'no handshake reported complete with a verification step skipped': explored by the negative-twin scenarios (a handshake that must fail - wrong name, wrong CA, untrusted client certificate, rejecting callback, wrong PSK - must fail under every fault position) and by the installed-configuration check after every successful API call; not a theorem",
+        "swallowed failures: the translator finds NULL tests whose failing branch carries on (GuardedButSwallowed) lexically; the sweep compares the content of session id, keys and server cache entry with the fault-free run at checkpoints and probes a different-name session on the same session id - fields outside those fingerprints are not compared",
+        "TLS <= 1.2 / external-PSK resumption is not bound to a server name by the library: the different-name probe completes in the fault-free run there and carries no oracle",
         "sites not reached by any scenario (%d of %d): covered by the table theorem only, their classification is not cross-checked by execution" % (len(sites) - len(reached_sites), len(sites)),
         "the translator finds allocation wrappers lexically (pointer-returning functions whose return value is an allocation result); a wrapper that hands its block back through an out-parameter is covered through the caller's test of the status code only",
         "GuardedBeforeUse says that a NULL test precedes every use on the text the scanner follows; that the tested branch really leaves the function is explored, not proved",
@@ -640,6 +742,8 @@ def replay(ck, path):
     outdir = os.path.join(ck.scratch, "replay"); os.makedirs(outdir, exist_ok=True)
     res = os.path.join(outdir, "r.res")
     env = dict(os.environ, ASAN_OPTIONS="detect_leaks=0:exitcode=66:allocator_may_return_null=1", UBSAN_OPTIONS="print_stacktrace=1")
+    if session_table_address(exe):
+        env["H_FAULT_SESSTAB"] = SESSTAB[exe]
     k = int(rp["k"]); multi = int(rp.get("multi", 0)); seed = int(rp.get("seed", 1))
     errp = open(res + ".parent.err", "w")
     p = subprocess.Popen([exe, rp["scenario"], res, str(k), "100000000", "1", "0", str(multi), str(seed)], env=env, stdout=subprocess.DEVNULL, stderr=errp)
